@@ -41,6 +41,9 @@ pub struct RxParams {
     pub opening_sibling: bool,
     pub sibling: bool,
     pub read_menu: bool,
+    /// another task (pool housekeeping, liveness monitor, owner) calls close() on the session while the FIN is handled:
+    /// the reader must still terminate (end-of-stream or error) having read a prefix of what was sent
+    pub closing: bool,
 }
 
 async fn read_to_end(st: Arc<Stream>, buf_size: usize) -> (Vec<u8>, Option<bool>) {
@@ -174,11 +177,34 @@ pub fn make_rx(p: RxParams) -> ScenarioFn {
                     reader = tokio::spawn(read_to_end(s1.clone(), p.read_buf));
                 }
             }
+            let closer = if p.closing {
+                let s = sess.clone();
+                Some(tokio::spawn(async move {
+                    crate::ctl::hpoint("h.c08.closer").await;
+                    let _ = within(s.close()).await;
+                }))
+            } else {
+                None
+            };
             let (got, end) = match tokio::time::timeout(Duration::from_secs(3 * 3600), reader).await {
                 Ok(Ok(x)) => x,
                 _ => (vec![], None),
             };
             out.obs = format!("got={} end={:?}", got.len(), end);
+            if p.closing {
+                match end {
+                    None => out.viol("C08:rx:eof-never-observed", format!("reader of stream {id} never saw end-of-stream (nor an error) after the peer's FIN while another task was closing the session (read {} of {} bytes)", got.len(), sent.len())),
+                    // (a session closed by its owner ends its streams with end-of-stream or an error — C09 — whatever
+                    // was still in flight; the reader cannot tell that from the peer's FIN, so only a prefix is demanded)
+                    Some(_) if !sent.starts_with(&got) => out.viol("C08:rx:data-altered", format!("read {:02x?}, sent {:02x?}", &got[..got.len().min(16)], &sent[..sent.len().min(16)])),
+                    _ => {}
+                }
+                if let Some(c) = closer {
+                    let _ = tokio::time::timeout(Duration::from_secs(3 * 3600), c).await;
+                }
+                drop(peer);
+                return out;
+            }
             match end {
                 None => out.viol("C08:rx:eof-never-observed", format!("reader of stream {id} never saw end-of-stream after the peer's FIN (read {} of {} bytes)", got.len(), sent.len())),
                 Some(_) => {
@@ -263,7 +289,7 @@ pub fn make_rx(p: RxParams) -> ScenarioFn {
 }
 
 pub fn rx_json(p: &RxParams) -> serde_json::Value {
-    json!({"part": "receive-side", "role": if p.client_role {"client"} else {"server"}, "frames": p.frames, "mode": format!("{:?}", p.mode), "read_buf": p.read_buf, "sibling": p.sibling, "read_menu": p.read_menu, "opening_sibling": p.opening_sibling})
+    json!({"part": "receive-side", "role": if p.client_role {"client"} else {"server"}, "frames": p.frames, "mode": format!("{:?}", p.mode), "read_buf": p.read_buf, "sibling": p.sibling, "read_menu": p.read_menu, "opening_sibling": p.opening_sibling, "closing": p.closing})
 }
 
 pub fn items(tier: Tier) -> Vec<DxItem> {
@@ -291,13 +317,22 @@ pub fn items(tier: Tier) -> Vec<DxItem> {
                             } else {
                                 1
                             };
-                            let p = RxParams { client_role, frames, mode, read_buf, sibling, read_menu, opening_sibling: false };
+                            let p = RxParams { client_role, frames, mode, read_buf, sibling, read_menu, opening_sibling: false, closing: false };
                             let mut it = DxItem::new(rx_json(&p), make_rx(p.clone()), bound);
                             if bound > 0 {
                                 it.exec.long_yield = 3;
                                 it.exec.quiesce = true;
                             }
                             v.push(it);
+                            // the same with another task closing the session while the FIN is handled
+                            if read_buf == 7 && !read_menu && mode != ReaderMode::Partial && frames <= 2 {
+                                let mut p3 = p.clone();
+                                p3.closing = true;
+                                let mut it = DxItem::new(rx_json(&p3), make_rx(p3), if thorough { 3 } else { 2 });
+                                it.exec.long_yield = 3;
+                                it.exec.quiesce = true;
+                                v.push(it);
+                            }
                             // the same with a stream being opened by another task while the FIN is handled
                             if client_role && read_buf == 7 && !read_menu && !sibling && mode != ReaderMode::Partial && frames <= 1 {
                                 let mut p2 = p;
